@@ -30,6 +30,8 @@ fn pool_sources() -> Vec<&'static str> {
         // records
         "{}", "{a: 1}", "{a: 1, b: 2}", "{b: 2, a: 1}", "{a: 1, b: 3}", "{a: 2}", "{b: 1}", "{a: [1, 2]}", "{a: {b: 1}}", "{a: {b: 1}, c: null}",
         "{c: null, a: {b: 1}}", "{\"a b\": 1}", "{a: null}", "{a: 0}", "{a: -0}",
+        // same size, different key sets, null under the key the other one lacks
+        "{k: 1, b: null}", "{k: 1, c: null}", "{k: 1, c: 2}", "{b: null}", "{c: null}", "[{b: null}]", "[{c: null}]",
     ]
 }
 
